@@ -353,7 +353,8 @@ def validate_traces(res, label, module, cfg_text, trace_files, timeout=1200, ext
                  JAVA_TOOL_OPTIONS="-Xss256m -XX:ParallelGCThreads=2 -Xmx3g -Dtlc2.tool.queue.IStateQueue=StateDeque")
         if extra_env:
             e.update(extra_env)
-        cmd = ["timeout", str(timeout), "tlc", "-workers", "1", "-metadir", os.path.join(wd, "md%d" % i), "-cleanup",
+        # (-checkpoint 0: the depth-first StateDeque queue cannot be checkpointed, and TLC would try after 30 min)
+        cmd = ["timeout", str(timeout), "tlc", "-workers", "1", "-checkpoint", "0", "-metadir", os.path.join(wd, "md%d" % i), "-cleanup",
                "-noGenerateSpecTE", "-config", cfg, os.path.join(SPEC, module + ".tla")]
         procs.append((subprocess.Popen(cmd, stdout=out, stderr=subprocess.STDOUT, env=e, cwd=wd), out, tf, i))
     results = []
